@@ -58,7 +58,12 @@ func blahut_naive_compute_J(r []float64, J *float64) {
 
 func blahut_naive_compute_p(r []float64, lambda float64, p []float64) {
   for i, _ := range p {
-    p[i] = math.Pow(p[i], 1.0 - lambda)*math.Pow(r[i], lambda)
+    if p[i] == 0.0 {
+      // (as in the matrix version: 0^(1-lambda) is +Inf for lambda > 1)
+      p[i] = r[i]
+    } else {
+      p[i] = math.Pow(p[i], 1.0 - lambda)*math.Pow(r[i], lambda)
+    }
   }
   normalizeSlice(p)
 }
